@@ -221,3 +221,19 @@ FAMILIES["C20"] = dict(
                 "with and without a variadic tail, x argument lists of length 0..2 (3) over 9 argument kinds incl. function and missing, plus handler and result-shape combinations; each case builds the Go function by reflection, which echoes what it received, and is validated by trace validation."),
     level_note=_SEM_NOTE + " Out-of-range and fractional numeric conversions and JSON null arguments are left open by the statement (the specification abstains).",
 )
+
+
+FAMILIES["C06"] = dict(
+    custom="c06",
+    models=[("MC_Call", "MC_Call_nested_design.cfg", "hold"), ("MC_Call", "MC_Call_two_design.cfg", "hold"), ("MC_Call", "MC_Call_three_design.cfg", "hold"),
+            ("MC_Call", "MC_Call_deep_design.cfg", "hold"), ("MC_Call", "MC_Call_nested_shared.cfg", "Invariant OwnContext"), ("MC_Call", "MC_Call_two_shared.cfg", "Invariant OwnContext"),
+            ("MC_Api", "MC_Api_none.cfg", "hold"), ("MC_Api", "MC_Api_registry_alias.cfg", "Visibility")],
+    sched_cfgs={"quick": ["MC_CallSched_nested.cfg", "MC_CallSched_two.cfg", "MC_CallSched_twosame.cfg", "MC_CallSched_three.cfg"],
+                "thorough": ["MC_CallSched_nested.cfg", "MC_CallSched_two.cfg", "MC_CallSched_twosame.cfg", "MC_CallSched_three.cfg", "MC_CallSched_deep.cfg"]},
+    conc={"quick": {"goroutines": [2, 8, 32], "dur": "3s"}, "thorough": {"goroutines": [2, 4, 8, 16, 32], "dur": "30s"}},
+    level_text=("A function call is refined in TLA+ into the steps the evaluator takes (JCall: SetCtx, Descend, Invoke per goroutine and call frame). TLC proves OwnContext (every built-in reads the context item of its own call site) and termination for every interleaving of 1-3 goroutines "
+                "with call trees up to depth 3, and shows that keeping the context in the shared callable (the pinned defect) violates it both by nesting and by interleaving. Every interleaving TLC enumerates (MC_CallSched) is forced on the real code through a blocking gate hook placed before each protocol step "
+                "(token passing, sequence numbers issued under the gate's mutex), on private and on shared compiled expressions; the recorded steps are validated as a behaviour of JCall (TraceCall, with the context actually read recorded from a hook) and each goroutine's outcome is validated against the sequential semantics. "
+                "Free-running goroutines (2..32) looping over generated programs with goroutine-specific inputs, alongside Compile and package-level registration, run in a -race build: every distinct outcome is validated against the sequential semantics and any race-detector report is a violation."),
+    level_note="Data-race freedom in the sense of the Go memory model is observed by the race detector under these schedules and loads; it is not derived from the TLA+ model (DESIGN.md section 7). The gate hook is build-tag guarded.",
+)
